@@ -195,25 +195,25 @@ def payloads(doc, tier):
     return res
 
 
-def contains_token(x, depth=0):
+def contains_token(x, depth=0, tokens=(TOKEN, CANARY_TEXT)):
     if x is None or depth > 6:
         return False
     if isinstance(x, bytes):
-        return TOKEN.encode() in x or CANARY_TEXT.encode() in x
+        return any(t.encode() in x for t in tokens)
     if isinstance(x, str):
-        return TOKEN in x or CANARY_TEXT in x
+        return any(t in x for t in tokens)
     if isinstance(x, dict):
-        return any(contains_token(k, depth + 1) or contains_token(v, depth + 1) for k, v in x.items())
+        return any(contains_token(k, depth + 1, tokens) or contains_token(v, depth + 1, tokens) for k, v in x.items())
     if isinstance(x, (list, tuple, set)):
-        return any(contains_token(v, depth + 1) for v in x)
+        return any(contains_token(v, depth + 1, tokens) for v in x)
     try:
         from saml2_tophat import SamlBase, ExtensionElement
         if isinstance(x, (SamlBase, ExtensionElement)):
-            return contains_token(x.to_string(), depth + 1)
+            return contains_token(x.to_string(), depth + 1, tokens)
     except Exception:
         pass
     try:
-        return contains_token(str(x), depth + 1) if not isinstance(x, (int, float, bool)) else False
+        return contains_token(str(x), depth + 1, tokens) if not isinstance(x, (int, float, bool)) else False
     except Exception:
         return False
 
@@ -463,15 +463,24 @@ def run_fuzz(case):
     if m:
         _COUNT['fuzz_cov_sum_over_shards'] = _COUNT.get('fuzz_cov_sum_over_shards', 0) + int(m.group(1))
         _COUNT['fuzz_execs'] = _COUNT.get('fuzz_execs', 0) + case['runs']
-    if r.returncode != 0 and crashes:
-        with open(crashes[0], 'rb') as f:
-            data = f.read()
-        msg = [l for l in (r.stdout + r.stderr).splitlines() if 'OracleFailure' in l or 'ORACLE' in l][-1:] or [r.stderr[-300:]]
-        shutil.rmtree(wd, ignore_errors=True)
-        raise Violation('fuzz-oracle-failure', 'coverage-guided fuzzing found an input violating the oracle: %s' % msg[0][:300],
-                        detail={'replay_case': {'data_b64': base64.b64encode(data).decode(), 'shard': case['shard'], 'runs': 0}})
+    # an artifact counts only if replaying it alone, in a fresh process, fails the oracle again: libFuzzer also writes artifacts for per-input timeouts,
+    # memory limits and slow units (machine load), and those are not counterexamples
+    confirmed = None
+    for cpath in crashes:
+        rr = subprocess.run(['/venv/bin/python', '-W', 'ignore', target, '--replay', cpath], capture_output=True, text=True, env=env)
+        if rr.returncode != 0 and 'ORACLE-FAILURE' in rr.stdout:
+            with open(cpath, 'rb') as f:
+                confirmed = (f.read(), rr.stdout.strip()[-300:])
+            break
+        if rr.returncode != 0:
+            shutil.rmtree(wd, ignore_errors=True)
+            raise ValueError('harness: fuzz target raised outside the oracle on a saved input: %s' % (rr.stderr[-600:],))
+        _COUNT['fuzz_unreproduced_artifacts'] = _COUNT.get('fuzz_unreproduced_artifacts', 0) + 1
     shutil.rmtree(wd, ignore_errors=True)
-    if r.returncode != 0:
+    if confirmed:
+        raise Violation('fuzz-oracle-failure', 'coverage-guided fuzzing found an input violating the oracle: %s' % confirmed[1],
+                        detail={'replay_case': {'data_b64': base64.b64encode(confirmed[0]).decode(), 'shard': case['shard'], 'runs': 0}})
+    if r.returncode != 0 and not crashes:
         raise ValueError('harness: fuzz target failed without a crash file: %s' % r.stderr[-400:])
     return 'fuzz-campaign', True
 
